@@ -16,10 +16,63 @@ package derive
 
 import (
 	"fmt"
+	"go/build"
 	"go/parser"
+	"os"
+	"path/filepath"
 
 	"golang.org/x/tools/go/loader"
 )
+
+// hiddenFile is a previously generated file that has been moved out of the loader's sight.
+type hiddenFile struct {
+	orig  string
+	aside string
+}
+
+// hideDerived sets the previously generated files of the given packages aside, so that the packages are
+// loaded, and their derived functions regenerated, from the user's current sources only.
+// Otherwise stale signatures in the old file leak into the types of the new calls,
+// and a truncated old file can make the whole package unloadable.
+func hideDerived(paths []string) []hiddenFile {
+	wd, err := os.Getwd()
+	if err != nil {
+		return nil
+	}
+	var hidden []hiddenFile
+	for _, path := range paths {
+		bp, err := build.Import(path, wd, build.FindOnly)
+		if err != nil || bp.Dir == "" {
+			continue
+		}
+		orig := filepath.Join(bp.Dir, derivedFilename)
+		aside := orig + ".old"
+		os.Remove(aside)
+		if err := os.Rename(orig, aside); err == nil {
+			hidden = append(hidden, hiddenFile{orig: orig, aside: aside})
+		}
+	}
+	return hidden
+}
+
+// restoreDerived puts the old generated file back if no new one was written, for example because of an error,
+// and removes it otherwise.
+func restoreDerived(hidden []hiddenFile) {
+	for _, h := range hidden {
+		if _, err := os.Stat(h.orig); os.IsNotExist(err) {
+			os.Rename(h.aside, h.orig)
+		} else {
+			os.Remove(h.aside)
+		}
+	}
+}
+
+// discardDerived removes the old generated files, after everything has been regenerated.
+func discardDerived(hidden []hiddenFile) {
+	for _, h := range hidden {
+		os.Remove(h.aside)
+	}
+}
 
 func load(paths ...string) (*loader.Program, error) {
 	conf := loader.Config{
